@@ -1359,7 +1359,6 @@ func ruleLoopProgress(p *Prog, r *Report) {
 	r.floor("R20.6b", "back edges examined", n, 20)
 }
 
-
 var nilResetCache map[string]bool
 
 // nilResetFields: pointer-typed struct fields of module types into which some
@@ -1396,7 +1395,6 @@ func nilResetFields(p *Prog) map[string]bool {
 	}
 	return nilResetCache
 }
-
 
 // decodedByAddress: the address of the pointer-typed local al (a **T) is passed
 // to encoding/json or encoding/xml Unmarshal / Decode.
